@@ -11,6 +11,9 @@ same wire string decoded twice.
   (L ..) (T ..) (D (k v)..)    (DC <n> (k v)..)   n=1 pyg_base.Dict, n=2 pyg_base.dictattr
   (A <dtype i|f|e|b|U|o|Mns|Mus|Ms|MD|mns|mus|mD> (<shape>) cells..)   e = float32, M.. = datetime64[..] (cells T:<us> / NaT:P), m.. = timedelta64[..]
   (cells TD:<us> / NaT:P)        (S (labels) cells..)   (DF (index) (columns) cells row-major..)
+
+ops: (eq eq x y), (eq in x seq), (eq pyeq x y) native == on plain values, (eq eqr x y) the model answers with the raising reading eqR,
+(eq eqpinned x y) the model answers with eqPinned and the implementation is eq of _eq.py as it was before fix F6c (see pinned_eq).
 """
 import datetime, itertools
 import numpy as np
